@@ -210,7 +210,7 @@ func TestC06(t *testing.T) {
 	q.flush(t, 1)
 
 	// random: valid configurations with k mutations
-	setRapidChecks(pick(60, 500))
+	setRapidChecks(pick(150, 3000))
 	opts := gen.All()
 	opts.ValueKinds = false
 	opts.Unicode = false
